@@ -40,53 +40,57 @@ type oblPart struct {
 }
 
 type Exec struct {
-	P             *Program
-	p             *Pool
-	tm            *TypeMap
-	top           *ssa.Function
-	topC          *FuncContract
-	facts         []*Term
-	obls          []*Obligation
-	regionSorts   map[string]*Sort
-	epochN        int
-	epochMerges   map[int]*epochMerge
-	ptrIDs        map[string]*Term
-	ptrByID       map[*Term]*PtrV
-	condClosures  map[*Term][]condClosure
-	cellN         int
-	allocN        int
-	depth         int
-	inlineStack   []*ssa.Function
-	oblCount      map[string]int
-	assumptions   map[string]bool // opaque calls, havocs, trusted contracts used
-	unsupported   []string
-	old           *State
-	modSet        []modEntry // frame of the function under check
-	frameOn       bool
-	heapTop0      *Term
-	inputs        map[string]*Term
-	curProps      []string
-	sentinels     map[string]*Term
-	strLits       map[string]*Term
-	curFn         *ssa.Function
-	specDepth     int
-	boxes         map[*Term]boxInfo
-	shiftCache    map[string]*Term
-	specDecls     map[string]*FuncDecl
-	bitCache      map[int][]*Term
-	bitLinked     map[int]bool
-	bitTerm       map[int]*Term
-	localCellRefs map[*Term]string
-	boundOf       map[int][2]*big.Int
-	boundScanned  int
-	expandMemo    map[string]*Term
-	symMemo       map[int]map[string]bool
-	sliceOrigin   map[*Term]*PtrV
-	allocOrder    map[*Term]int
-	bounded       map[*Term]bool
-	typeIDs       map[string]int
-	freshErrs     []*Term
-	noOblige      int // >0: evaluating spec code; do not emit obligations
+	P              *Program
+	p              *Pool
+	tm             *TypeMap
+	top            *ssa.Function
+	topC           *FuncContract
+	facts          []*Term
+	obls           []*Obligation
+	regionSorts    map[string]*Sort
+	epochN         int
+	epochMerges    map[int]*epochMerge
+	ptrIDs         map[string]*Term
+	ptrByID        map[*Term]*PtrV
+	condClosures   map[*Term][]condClosure
+	cellN          int
+	allocN         int
+	depth          int
+	inlineStack    []*ssa.Function
+	oblCount       map[string]int
+	assumptions    map[string]bool // opaque calls, havocs, trusted contracts used
+	unsupported    []string
+	old            *State
+	modSet         []modEntry // frame of the function under check
+	frameOn        bool
+	heapTop0       *Term
+	inputs         map[string]*Term
+	curProps       []string
+	sentinels      map[string]*Term
+	strLits        map[string]*Term
+	curFn          *ssa.Function
+	specDepth      int
+	boxes          map[*Term]boxInfo
+	shiftCache     map[string]*Term
+	specDecls      map[string]*FuncDecl
+	bitCache       map[int][]*Term
+	bitLinked      map[int]bool
+	bitTerm        map[int]*Term
+	shiftAxiomDone map[string]bool
+	constBacking   map[*Term]*Term
+	constGlobVals  map[string]*Term
+	localCellRefs  map[*Term]string
+	boundOf        map[int][2]*big.Int
+	boundScanned   int
+	expandMemo     map[string]*Term
+	symMemo        map[int]map[string]bool
+	sliceOrigin    map[*Term]*PtrV
+	allocOrder     map[*Term]int
+	bounded        map[*Term]bool
+	wholeCopy      map[*Term]wholeCopy
+	typeIDs        map[string]int
+	freshErrs      []*Term
+	noOblige       int // >0: evaluating spec code; do not emit obligations
 }
 
 type modEntry struct {
@@ -98,8 +102,8 @@ func NewExec(P *Program) *Exec {
 	p := NewPool()
 	ex := &Exec{P: P, p: p, tm: NewTypeMap(p), regionSorts: map[string]*Sort{}, epochMerges: map[int]*epochMerge{},
 		ptrIDs: map[string]*Term{}, ptrByID: map[*Term]*PtrV{}, condClosures: map[*Term][]condClosure{}, oblCount: map[string]int{},
-		assumptions: map[string]bool{}, boxes: map[*Term]boxInfo{}, shiftCache: map[string]*Term{}, specDecls: map[string]*FuncDecl{}, bitCache: map[int][]*Term{}, bitLinked: map[int]bool{}, bitTerm: map[int]*Term{}, localCellRefs: map[*Term]string{}, boundOf: map[int][2]*big.Int{}, expandMemo: map[string]*Term{}, symMemo: map[int]map[string]bool{}, sliceOrigin: map[*Term]*PtrV{}, typeIDs: map[string]int{}, inputs: map[string]*Term{}, sentinels: map[string]*Term{}, strLits: map[string]*Term{},
-		allocOrder: map[*Term]int{}, bounded: map[*Term]bool{}}
+		assumptions: map[string]bool{}, boxes: map[*Term]boxInfo{}, shiftCache: map[string]*Term{}, specDecls: map[string]*FuncDecl{}, bitCache: map[int][]*Term{}, bitLinked: map[int]bool{}, bitTerm: map[int]*Term{}, shiftAxiomDone: map[string]bool{}, constBacking: map[*Term]*Term{}, constGlobVals: map[string]*Term{}, localCellRefs: map[*Term]string{}, boundOf: map[int][2]*big.Int{}, expandMemo: map[string]*Term{}, symMemo: map[int]map[string]bool{}, sliceOrigin: map[*Term]*PtrV{}, typeIDs: map[string]int{}, inputs: map[string]*Term{}, sentinels: map[string]*Term{}, strLits: map[string]*Term{},
+		allocOrder: map[*Term]int{}, bounded: map[*Term]bool{}, wholeCopy: map[*Term]wholeCopy{}}
 	p.DistinctFn = ex.distinct
 	ex.tm.Bounds = ex.bounds
 	constArrs := map[string]*Term{}
@@ -131,7 +135,7 @@ func (ex *Exec) distinct(a, b *Term) bool {
 		return false
 	}
 	if b.Op == "int" {
-		return true // allocation constants are positive and unequal to any literal we compare with (nil)
+		return b.Int.Sign() <= 0 // allocation constants are positive
 	}
 	return ex.bounded[b] && b.id < a.id
 }
@@ -287,6 +291,31 @@ func (ex *Exec) term(st *State, v ssa.Value) *Term {
 	}
 	ex.fail("value %s is not a term (%T)", v.Name(), x)
 	return nil
+}
+
+// constGlobal: a declared constant []byte global reads as a slice over a fixed backing array.
+func (ex *Exec) constGlobal(g *ssa.Global) *Term {
+	if g.Pkg == nil {
+		return nil
+	}
+	key := g.Pkg.Pkg.Path() + "." + g.Name()
+	cg, ok := ex.P.CS.ConstGlobals[key]
+	if !ok {
+		return nil
+	}
+	if t, ok := ex.constGlobVals[key]; ok {
+		return t
+	}
+	p := ex.p
+	ref := p.Const("cg:"+key, IntSort)
+	ex.facts = append(ex.facts, p.Gt(ref, p.Int(0)), p.Lt(ref, ex.heapTop0))
+	ctx := &EvalCtx{ex: ex, st: ex.emptyState(), vars: map[string]tv{}, pkgPath: cg.PkgPath, clause: cg.Content}
+	content := ctx.asTerm(ctx.eval(cg.Content.Expr))
+	ex.constBacking[ref] = content
+	v := p.Mk(ex.tm.SliceS, ref, p.Int(0), p.Int(int64(cg.Len)), p.Int(int64(cg.Len)))
+	ex.constGlobVals[key] = v
+	ex.assumptions["package-level "+key+" is initialised once, never reassigned, and holds "+cg.Content.Text] = true
+	return v
 }
 
 // sentinel: package-level error variables are distinct non-nil constants.
@@ -560,7 +589,7 @@ func (ex *Exec) execLoop(fr *frame, l *Loop, in []edge) []edge {
 		}
 	}
 	for _, inv := range spec.Invariants {
-		ex.assume(h, ex.evalBool(ex.ctxFor(fr, h, lc), inv))
+		ex.assume(h, ex.evalAssume(ex.ctxFor(fr, h, lc), inv))
 	}
 	h0 := h.fork() // the loop-head state of an arbitrary iteration (for two-state step clauses)
 	var variant0 *Term
@@ -796,7 +825,7 @@ func (ex *Exec) execInstr(fr *frame, st *State, in ssa.Instruction) {
 	case *ssa.Convert:
 		st.vals[in] = ex.convert(st, ex.term(st, in.X), in.X.Type(), in.Type(), pos)
 	case *ssa.ChangeType:
-		st.vals[in] = ex.val(st, in.X)
+		st.vals[in] = ex.changeType(st, ex.val(st, in.X), in.Type())
 	case *ssa.ChangeInterface:
 		st.vals[in] = ex.val(st, in.X)
 	case *ssa.MakeInterface:
@@ -923,6 +952,9 @@ func (ex *Exec) unop(st *State, in *ssa.UnOp, pos string) Val {
 		if g, ok := in.X.(*ssa.Global); ok {
 			if s := ex.sentinel(g); s != nil {
 				return s
+			}
+			if cgv := ex.constGlobal(g); cgv != nil {
+				return cgv
 			}
 		}
 		ptr := ex.asPtr(ex.val(st, in.X), pt)
@@ -1499,4 +1531,40 @@ func (ex *Exec) initGhostFields(st *State, ref *Term, t types.Type) {
 		}
 		st.heap["gf:"+gf.Name] = ex.p.Store(r, ref, z)
 	}
+}
+
+type wholeCopy struct {
+	src    *Term
+	srcLen *Term
+	width  int64
+}
+
+// changeType converts between a byte array and the abstract hash / address value of the same bytes.
+func (ex *Exec) changeType(st *State, v Val, to types.Type) Val {
+	t, ok := v.(*Term)
+	if !ok {
+		return v
+	}
+	p := ex.p
+	want := ex.tm.SortOf(to)
+	if t.Sort == want {
+		return v
+	}
+	arrS := p.ArraySort(IntSort, IntSort)
+	switch {
+	case t.Sort == arrS && (want == ex.tm.HashS || want == ex.tm.AddrS):
+		fname, width := "hashOf", int64(32)
+		if want == ex.tm.AddrS {
+			fname, width = "addrOf", 20
+		}
+		ex.bytesOfAbstract(p.Const("wit:"+fname, want)) // make sure the bridge axioms are present
+		g := p.Func(fname, []*Sort{arrS}, want)
+		if wc, ok := ex.wholeCopy[t]; ok && wc.width == width {
+			return p.Ite(p.Ge(wc.srcLen, p.Int(width)), p.App(g, wc.src), p.App(g, t))
+		}
+		return p.App(g, t)
+	case (t.Sort == ex.tm.HashS || t.Sort == ex.tm.AddrS) && want == arrS:
+		return ex.bytesOfAbstract(t)
+	}
+	return v
 }
